@@ -88,6 +88,15 @@ def run_z(zobls, jobs: int):
         return list(ex.map(one, zobls))
 
 
+def selftest_obligations():
+    M = "xhair.obl.selftest"
+    o = [Obl(f"engine-selftest-sid[{g}]", M, "pinned_sid", env={"VF_GROUP": str(g), "VF_CONF": "miniA"}, timeout=150, family="engine-selftest", bound="6 pinned strings: the symbolic run must equal CPython") for g in range(3)]
+    o.append(Obl("engine-selftest-regex", M, "pinned_regex", env={"VF_CONF": "miniA"}, timeout=150, family="engine-selftest", bound="E1/E2: pinned strings through a resolva-style regex"))
+    o.append(Obl("engine-selftest-concat", M, "pinned_concat", env={"VF_CONF": "miniA"}, timeout=150, family="engine-selftest", bound="E10"))
+    o.append(Obl("engine-selftest-dictkey", M, "pinned_dictkey", env={"VF_CONF": "miniA"}, timeout=150, family="engine-selftest", bound="E9"))
+    return o
+
+
 def cmd_check(args) -> int:
     prop = args.id
     tier = args.tier or os.environ.get("VERIF_TIER") or "quick"
@@ -100,6 +109,9 @@ def cmd_check(args) -> int:
         return 2
     xobls: List[Obl] = mod.x_obligations(tier) if hasattr(mod, "x_obligations") else []
     zobls = mod.z_obligations(tier) if hasattr(mod, "z_obligations") else []
+    # the pinned differential self-test of the engine and its corrections runs with every check
+    if xobls and not any(o.family == "engine-selftest" for o in xobls):
+        xobls = selftest_obligations() + xobls
     if args.only:
         xobls = [o for o in xobls if re.search(args.only, o.name)]
         zobls = [z for z in zobls if re.search(args.only, z["name"])]
@@ -174,6 +186,9 @@ def cmd_check(args) -> int:
                 fake.message = w.get("what", "")
                 zviol.append(fake)
 
+    # engine self-test: any failure means nothing this run reports can be trusted -> infrastructure failure
+    selftest_bad = [r.obl.name for r in xres if r.obl.family == "engine-selftest" and r.verdict != "confirmed"]
+
     # vacuity: every twin must be refuted
     twins_bad = [r.obl.name for r in xres if r.obl.expect == "refute" and r.verdict != "refuted"]
 
@@ -207,6 +222,9 @@ def cmd_check(args) -> int:
     for r in violations + zviol:
         print(f"  violated: {r.obl.name}: {r.message[:300]} args={r.args} replay={r.replay}")
         print(f"VIOLATION property={prop} replay={r.replay_file}")
+    if selftest_bad:
+        print(f"harness error: engine self-test failed ({selftest_bad}); verdicts of this run are not trustworthy")
+        return 2
     if violations or zviol:
         return 1
     if harness_errors and not (nconf or zres):
